@@ -68,6 +68,8 @@ var zzSeqSpecs = []string{
 	`!S1F1|!H->E|Nm|<~!L~<~!A|"a // b"|!0x2F~>~<~!A|"<L T>"~>~>~.`,
 	// size declarations with optional white space inside the brackets, diagnostics behind them
 	`!S1F1|!H->E|<~!L~[^1^..^3^]~<~!A~[^2^..^]|"abc"~>~<~!U1~[^1^]|300~>~>~.|!S1F2|<~!B|400~>~.`,
+	// one-character tokens: message names of one character, one-digit numbers, one-letter variables
+	`!S1F1|!W|!H->E|N|<~!L~<~!U1|7|v~>~<~!A|"q"~>~>~.|!S3F5|!H<-E|m|<~!B|1~>~.|!S9F9|!W|Z|.`,
 }
 
 func zzJoin(s *zzSeq, sep []string, tok []string) string {
